@@ -31,7 +31,7 @@ def _configs(key, cls, thorough):
     """[(label, factory(candles=None, **extra) -> indicator, kwargs shown in the reproducer)]"""
     from hexital.analysis import movement, patterns
 
-    small = [2, 3, 5] + ([7, 14, 21] if thorough else [])
+    small = [2, 3, 5] + ([7, 14] if thorough else [])
     out = []
 
     def add(kw):
@@ -192,7 +192,7 @@ def run(tier, seed, focus=None):
     col = R.Collector(PROP, seed, focus)
     thorough = tier == "thorough"
     base = seed * 1000
-    lengths = [45, 120] if thorough else [50]
+    lengths = [45, 100] if thorough else [50]
     plain, framed = [], []
     for j, n in enumerate(lengths):
         for k in range(2 if (thorough and j == 0) else 1):
@@ -219,7 +219,7 @@ def run(tier, seed, focus=None):
     if skipped:
         col.note("skipped classes: " + "; ".join(skipped))
     bound = (f"tier={tier}: all {len(INDICATOR_MAP)} classes of INDICATOR_MAP (Amorph wrapped around 10 movement/pattern functions), "
-             f"default parameters plus periods {[2, 3, 5] + ([7, 14, 21] if thorough else [])}, input_value=volume variants; {len(R.STREAM_KINDS)} "
+             f"default parameters plus periods {[2, 3, 5] + ([7, 14] if thorough else [])}, input_value=volume variants; {len(R.STREAM_KINDS)} "
              f"stream kinds (+3 from oracles.gen) x lengths {lengths}, plus gappy/duplicate-timestamp streams (own and gen:gappy/gen:dup) of {[3 * n for n in lengths]} one-minute "
              f"candles collapsed with timeframe=T5, timeframe_fill=True; batch and one-by-one append")
     return col.result(bound)
